@@ -31,3 +31,9 @@ def run(report, tier):
                 functions=FUNCS, timeout=1500 if thorough else 600, path_timeout=60,
                 sample={"shape": "R1 in M0; R2 in M0 and R1; R3 in R2", "stable": ["R2"], "bf": "symbolic"})
     chrun.run_harness(report, h)
+    hs = Harness(name="flatten-small-floats", module="harness.c12", body="body_small", sig="sel: int", n_sel=H.N_QUICK, concrete_body=True,
+                 claim="with small floating-point branching fractions (3*2^-14 ... down to products of 1e-170) the visible bf is the product to "
+                       "a relative 1e-12: no rounding to decimal places, clipping or quantisation",
+                 bounds=f"the quick family of {len(H.FAM_QUICK)} shapes x orders x stable subsets with six dyadic branching fractions",
+                 functions=FUNCS, timeout=600, sample={"bf": [3 * 2.0 ** -14, 5 * 2.0 ** -16]})
+    chrun.run_harness(report, hs)
